@@ -291,6 +291,84 @@ async fn rep_two_requests(ctx: &mut Ctx, p1: &[usize], p2: &[usize], first: &str
     }
 }
 
+/// A REQ socket with several peers; one dies while its request is outstanding (its id is
+/// still queued in the rotation). Every later request must still go out behind exactly
+/// one delimiter, and a send with no peer left must hand the message back intact.
+async fn req_after_peer_death(ctx: &mut Ctx, npeers: usize, case: &Value) {
+    let mut sock = Sock::new("REQ", None);
+    let mut peers = Vec::new();
+    for k in 0..npeers {
+        match Peer::attach(&sock, "REP", Some(format!("srv{k}").as_bytes())).await {
+            Ok(p) => peers.push(p),
+            Err(e) => {
+                ctx.inconclusive(format!("C07 attach: {e}"));
+                return;
+            }
+        }
+    }
+    // first request goes to peer 0, which dies before answering
+    if !matches!(sim::complete(sock.send(&mk(0xD0, &[3]))).await, Ok(Ok(()))) {
+        ctx.inconclusive("C07 first send failed".into());
+        return;
+    }
+    peers[0].conn.close_full(crate::pipe::EndKind::Eof);
+    let _ = recv_now(&mut sock).await; // Err: the server is gone
+    ctx.count("req_peer_died_with_request_outstanding");
+    let mut seen: Vec<usize> = peers.iter().map(|p| p.out_msgs().map(|m| m.len()).unwrap_or(0)).collect();
+    for round in 0..(2 * npeers + 1) {
+        let payload = mk(0xD1 + round as u64, &[5, 0, 2]);
+        let r = sim::complete(sock.send(&payload)).await;
+        match r {
+            Ok(Ok(())) => {
+                let mut want = vec![vec![]];
+                want.extend(payload.clone());
+                let mut hit = None;
+                for (k, p) in peers.iter().enumerate().skip(1) {
+                    let msgs = p.out_msgs().unwrap_or_default();
+                    if msgs.len() > seen[k] {
+                        if msgs.len() != seen[k] + 1 || msgs[seen[k]] != want {
+                            ctx.violation_with(
+                                "C07/req-request-envelope",
+                                format!(
+                                    "after a peer died with a request outstanding, request #{round} went out as {} (expected exactly [empty] + payload {})",
+                                    rc::frames_summary(&msgs[seen[k]]),
+                                    rc::frames_summary(&want)
+                                ),
+                                case.clone(),
+                            );
+                            return;
+                        }
+                        seen[k] = msgs.len();
+                        hit = Some(k);
+                    }
+                }
+                match hit {
+                    Some(k) => {
+                        peers[k].send(&[vec![], b"ok".to_vec()]);
+                        let _ = recv_now(&mut sock).await;
+                    }
+                    None => {
+                        let _ = recv_now(&mut sock).await;
+                    }
+                }
+            }
+            Ok(Err(e)) => {
+                if let Some(back) = &e.returned {
+                    if back != &payload {
+                        ctx.violation_with(
+                            "C07/req-returned-message-altered",
+                            format!("send failed ({}); the message handed back is {} instead of {}", e.text, rc::frames_summary(back), rc::frames_summary(&payload)),
+                            case.clone(),
+                        );
+                        return;
+                    }
+                }
+            }
+            Err(_) => return,
+        }
+    }
+}
+
 /// Degenerate requests/replies: never Ok(message with zero frames); where the
 /// statement defines the result (nothing after the delimiter) it must be an
 /// error or a drop.
@@ -350,6 +428,9 @@ impl Prop for C07 {
             v.push(json!({"kind": "req_batch", "shapes": chunk}));
         }
         v.push(json!({"kind": "degenerate"}));
+        for n in 1..=4usize {
+            v.push(json!({"kind": "req_death", "peers": n}));
+        }
         let pres: [&[usize]; 4] = [&[], &[5], &[1, 255], &[3, 3, 3]];
         for p1 in pres {
             for p2 in pres {
@@ -406,6 +487,11 @@ impl Prop for C07 {
                 ctx.eval(1, true);
                 sim::run(req_case(ctx, &usizes(case, "request"), &usizes(case, "reply"), case));
             }
+            "req_death" => {
+                ctx.eval(hash_str(&case.to_string()), true);
+                ctx.sample("req_death", || case.clone());
+                sim::run(req_after_peer_death(ctx, u(case, "peers") as usize, case));
+            }
             "rep_two" => {
                 ctx.eval(hash_str(&case.to_string()), true);
                 ctx.count("rep_two_request_sequences");
@@ -455,6 +541,7 @@ impl Prop for C07 {
             ("payload_with_interior_empty_frame", 100),
             ("multi_hop_prefix", 100),
             ("rep_two_request_sequences", 48),
+            ("req_peer_died_with_request_outstanding", 4),
             ("rep_request_abandoned", 16),
             ("rep_requester_gone_before_reply", 16),
             ("degenerate/delimiter-last", 1),
